@@ -8,8 +8,10 @@ struct VOuter { char c; long l; unsigned long ul; int i; long long ll; long arr[
 struct VRev { short s; VInner in; char* p; long arr[3]; long long ll; int i; unsigned long ul; long l; char c; };
 enum VColor { V_RED = 1, V_GREEN = 7, V_BLUE = 1000 };
 struct VMisc { VColor col; bool b; unsigned char uc; double d; float fl; int* pa[2]; unsigned short us; };
+typedef int (*VFnPtr)(long);
+struct VFn { VFnPtr cb; int tag; VFnPtr tab[2]; };
 }
-using rlbox::VInner; using rlbox::VOuter; using rlbox::VRev; using rlbox::VMisc;
+using rlbox::VInner; using rlbox::VOuter; using rlbox::VRev; using rlbox::VMisc; using rlbox::VFn; using rlbox::VFnPtr;
 #define sandbox_fields_reflection_vlib_class_VInner(f, g, ...) \
   f(int, a, FIELD_NORMAL, ##__VA_ARGS__) g()                    \
   f(long, b, FIELD_NORMAL, ##__VA_ARGS__) g()
@@ -41,9 +43,14 @@ using rlbox::VInner; using rlbox::VOuter; using rlbox::VRev; using rlbox::VMisc;
   f(float, fl, FIELD_NORMAL, ##__VA_ARGS__) g()                  \
   f(int*[2], pa, FIELD_NORMAL, ##__VA_ARGS__) g()               \
   f(unsigned short, us, FIELD_NORMAL, ##__VA_ARGS__) g()
+#define sandbox_fields_reflection_vlib_class_VFn(f, g, ...)    \
+  f(VFnPtr, cb, FIELD_NORMAL, ##__VA_ARGS__) g()                \
+  f(int, tag, FIELD_NORMAL, ##__VA_ARGS__) g()                  \
+  f(VFnPtr[2], tab, FIELD_NORMAL, ##__VA_ARGS__) g()
 #define sandbox_fields_reflection_vlib_allClasses(f, ...) \
   f(VInner, vlib, ##__VA_ARGS__)                          \
   f(VOuter, vlib, ##__VA_ARGS__)                          \
   f(VRev, vlib, ##__VA_ARGS__)                            \
-  f(VMisc, vlib, ##__VA_ARGS__)
+  f(VMisc, vlib, ##__VA_ARGS__)                           \
+  f(VFn, vlib, ##__VA_ARGS__)
 rlbox_load_structs_from_library(vlib);
